@@ -59,6 +59,16 @@ Theorem c15_paging_complete : forall conv pages rows, concat pages = rows ->
 Proof. exact consume_pages_all. Qed.
 Print Assumptions c15_paging_complete.
 
+(* ---- every stream is closed, whatever the context: when the caller's context is done before or during the
+        call, after any number k of delivered rows and any number e of error elements, the event list still
+        ends with exactly one close, and what was delivered is the first k entries of the complete answer *)
+Theorem c15_stream_closed_any_ctx : forall conv res k e,
+  exists body, produce_cancelled conv res k e = body ++ [SClose] /\ ~ In SClose body /\
+               items_of (produce_cancelled conv res k e)
+               = match res with Some rows => map conv (firstn k rows) | None => [] end.
+Proof. exact produce_cancelled_closed. Qed.
+Print Assumptions c15_stream_closed_any_ctx.
+
 (* ---- Search: an invalid (empty) filter is rejected without a stream; otherwise the stream carries, newest
         submission first (ties in any order), exactly the stored plans matching all given filters, each once,
         with their stored projection, and is then closed; nothing else is ever sent. *)
@@ -272,3 +282,16 @@ Example ex_paging_with_empty_pages :
   map x_id (items_of (consume_pages result_of_row
      [[ex_row 1 7 30 0 Z0 Z0]; []; [ex_row 2 7 20 100 (T 31) Z0]; []; [ex_row 3 7 10 100 (T 32) Z0]])) = [1; 2; 3]%N.
 Proof. vm_compute. reflexivity. Qed.
+
+(* finding S9 (fixed): with a context already cancelled the pool dropped the streaming job: a channel, no error,
+   never closed; and the store wedged afterwards (the connection was never returned) *)
+Example ex_S9_never_closed_under_cancelled_ctx_is_refuted :
+  check_case (ex_case Sqlite 0
+    [TOp (OCreate (ex_row 1 7 30 100 (T 31) Z0)) true None;
+     TListCtx true 0 {| o_class := 0; o_items := []; o_err := false; o_closed := false |}]) = [2; 1; 13]%nat /\
+  check_case (ex_case Sqlite 0
+    [TOp (OCreate (ex_row 1 7 30 100 (T 31) Z0)) true None;
+     TListCtx true 0 {| o_class := 0; o_items := []; o_err := true; o_closed := true |};
+     TSearchCtx true {| f_ids := []; f_groups := []; f_statuses := [100]%N |} {| o_class := 1; o_items := []; o_err := false; o_closed := false |};
+     TList true 0 {| o_class := 2; o_items := []; o_err := false; o_closed := false |}]) = [2; 3; 5]%nat.
+Proof. vm_compute. split; reflexivity. Qed.
